@@ -267,7 +267,7 @@ CODES = ["%Y", "%m", "%d", "%H", "%M", "%S", "%j", "%s", "%F", "%T", "%N", "%O",
 
 def gen_strftime_formats(ctx, n):
     rng = ctx.rng
-    fs = ["%Y-%m-%dT%H:%M:%SZ", "%Y-%m-%d %H:%M:%S", "%Y-%m-%d", "%FT%TZ", "%s", "%j", "%Y-%j", "%N", "%O", "%Y%m%d%H%M%S", "%H:%M:%6S", "%%Y", "x5Sy", "%Y-1S"]
+    fs = ["%Y-%m-%dT%H:%M:%SZ", "%Y-%m-%d %H:%M:%S", "%Y-%m-%d", "%FT%TZ", "%s", "%j", "%Y-%j", "%N", "%O", "%Y%m%d%H%M%S", "%H:%M:%6S", "%%Y", "x5Sy", "%Y-1S", "%%5S", "%5", "%%%3S"]
     fs += ["%Y-%m-%dT%H:%M:%" + str(k) + "SZ" for k in range(1, 10)]
     for _ in range(n):
         parts = []
@@ -338,10 +338,11 @@ def run(ctx):
     ctx.cov["trusted_base"] = ["Coq 8.16.1 kernel + vm_compute", "no axioms", "implrun zones (time.LoadLocation + ZoneBounds dump)", "python harness",
                                "Go time package modelled by specification (proleptic Gregorian, Unix time), tied by correspondence",
                                "float64 arithmetic of secToFormattedTime modelled on Coq.Floats.SpecFloat (axiom-free), tied by correspondence"]
-    ctx.assumptions = ["lestrrat strftime / pbnjay strptime / time.Parse modelled for the numeric codes only", "tzdata content trusted as data (regenerated)"]
+    ctx.assumptions = ["lestrrat strftime / pbnjay strptime / time.Parse modelled for the numeric codes only", "tzdata content trusted as data (regenerated)",
+                       "float64(t.Unix()) exact for |n| < 2^53: modelled on SpecFloat, tied by correspondence"]
     zones, wlo, whi = gen_zones(ctx)
     forbidden_gate(ctx, ["Base", "C16"])
-    ok, why = check_props(ctx, "C16/Props.v", ["C16/Harness.vo", "C16/Proofs.vo", "C16/VerbProofs.vo"])
+    ok, why = check_props(ctx, "C16/Props.v", ["C16/Harness.vo", "C16/Proofs.vo", "C16/GmtProofs.vo", "C16/DhmsProofs.vo", "C16/ZoneProofs.vo", "C16/VerbProofs.vo"])
     terms, meta = [], []
     oracle_bad = []
 
@@ -408,7 +409,9 @@ def run(ctx):
                 want = ref_strftime(f, t, ns)
                 if want is not None and o["on"] != want:
                     lit_ds = has_literal_digit_S(f)
-                    bad("strftime-8S-nine-digits" if "%8S" in f and not lit_ds else "strftime-literal-digitS-mangled" if lit_ds else "strftime-codes", input={"ns": t * 10 ** 9 + ns, "format": f}, observed=o["on"], expected=want,
+                    esc = re.search(r"(?<!%)(%%)+[1-9]S", f) is not None
+                    bad("strftime-escaped-percent-digitS-mangled" if esc else "strftime-8S-nine-digits" if "%8S" in f and not lit_ds
+                        else "strftime-literal-digitS-mangled" if lit_ds else "strftime-codes", input={"ns": t * 10 ** 9 + ns, "format": f}, observed=o["on"], expected=want,
                         how="mlr -n put 'end{print strfntime(%d, \"%s\")}'" % (t * 10 ** 9 + ns, f))
         ctx.dist("strftime_cases", len(rows))
         # ---- (D) strptime: rendered instants (round trip) and mutations
@@ -437,9 +440,10 @@ def run(ctx):
                 case(7, int(o["n"]), 0, a, f, {"fn": "strpntime", "a": a, "f": f})
                 if o["s"] != ERR:
                     case(14, fbits(float(o["s"])), 0, a, f, {"fn": "strptime", "a": a, "f": f, "observed": o["s"]})
-                if o["s"] == ERR or float(o["s"]) != int(o["n"]) / 1e9:
+                # strpntime is int64 nanoseconds (representable for 1677-09-21 .. 2262-04-11 only); inside that range both must agree
+                if o["s"] == ERR or (abs(float(o["s"])) < 9.2e9 and abs(float(o["s"]) - int(o["n"]) / 1e9) > 1e-6):
                     bad("strptime-vs-strpntime", input={"a": a, "f": f}, observed=[o["n"], o["s"]])
-            if e is not None and o["n"] != str(e * 10 ** 9):
+            if e is not None and abs(e) * 10 ** 9 < 2 ** 63 and o["n"] != str(e * 10 ** 9):
                 bad("strptime-unixnano-overflow" if abs(e) * 10 ** 9 >= 2 ** 63 else "strptime-strftime-roundtrip", input={"text": a, "format": f}, observed=o["n"], expected=str(e * 10 ** 9),
                     how="mlr -n put 'end{print strpntime(\"%s\", \"%s\")}'" % (a, f))
             if e is not None and o["s"] != ERR and float(o["s"]) != float(e):
